@@ -156,7 +156,7 @@ def run_shard(seed, shard, n_cases, tier):
     if shard == 0:
         for text, fname, argn, vecs, name in accfg_corpus(rng, c):
             for v in run_one(text, argn, vecs, res, skeleton="corpus:" + name, origin="corpus", fname=fname):
-                R.violation(res, v["kind"], v["detail"], v["case"], attribute(v))
+                R.violation(res, v["kind"], v["detail"], v["case"], attribute(v), info=v.get("info"))
             R.bump(res, "corpus_cases")
     for i in range(n_cases):
         prog = gen_program(rng, profile="overlap")
@@ -167,7 +167,7 @@ def run_shard(seed, shard, n_cases, tier):
             R.bump(res, "feature:" + f)
         R.seen(res, "skeletons", prog.skeleton, cap=300)
         for v in vs:
-            R.violation(res, v["kind"], v["detail"], v["case"], attribute(v))
+            R.violation(res, v["kind"], v["detail"], v["case"], attribute(v), info=v.get("info"))
         if i < 2 and shard == 0:
             R.sample(res, {"program": prog.text, "vectors": [vec for _, vec in vecs[:2]]})
     for k, v in _fired.items():
